@@ -50,7 +50,8 @@ func (src *Rollout) ConvertTo(dst conversion.Hub) error {
 		obj.Spec.Strategy = v1beta1.RolloutStrategy{
 			Paused: srcSpec.Strategy.Paused,
 			Canary: &v1beta1.CanaryStrategy{
-				FailureThreshold: srcCanary.FailureThreshold,
+				FailureThreshold:             srcCanary.FailureThreshold,
+				DisableGenerateCanaryService: srcCanary.DisableGenerateCanaryService,
 			},
 		}
 		for _, step := range srcCanary.Steps {
@@ -195,7 +196,8 @@ func (dst *Rollout) ConvertFrom(src conversion.Hub) error {
 			Strategy: RolloutStrategy{
 				Paused: srcV1beta1.Spec.Strategy.Paused,
 				Canary: &CanaryStrategy{
-					FailureThreshold: srcV1beta1.Spec.Strategy.Canary.FailureThreshold,
+					FailureThreshold:             srcV1beta1.Spec.Strategy.Canary.FailureThreshold,
+					DisableGenerateCanaryService: srcV1beta1.Spec.Strategy.Canary.DisableGenerateCanaryService,
 				},
 			},
 			Disabled: srcV1beta1.Spec.Disabled,
